@@ -26,7 +26,9 @@ REQUIRED = ['keeps_direct_seats', 'house_grows_by_adj', 'house_grows_by_adj_of_f
             'level_least_enlargement_ha', 'level_least_enlargement_lr', 'multistage_final_is_proportional',
             'level_terminates_lr', 'level_final_is_proportional_lr', 'level_terminates_of_adequate',
             'level_cty_final_party_totals', 'partyVotes_ok', 'level_cty_refuses_tie', 'level_cty_ok_no_tie',
-            'level_cty_tie_witness', 'level_cty_terminates']
+            'level_cty_tie_witness', 'level_cty_terminates', 'level_cty_floors_cover_direct_seats',
+            'level_cty_final_is_proportional', 'distGet_entry', 'level_final_is_proportional_tie',
+            'final_zero_votes_witness', 'level_final_is_proportional_lr_tie']
 NAME_MODES = ['str', 'int0', 'empty0', 'person', 'tuple']
 REQUIRED_COUNTERS = ['overhang_present', 'no_overhang', 'party_outside_tier', 'party_without_votes',
                      'levelling_iterations_ge2', 'by_constituency', 'multistage_wrapped',
@@ -38,7 +40,8 @@ REQUIRED_COUNTERS = ['overhang_present', 'no_overhang', 'party_outside_tier', 'p
                      'other_configuration_first', 'zero_direct_and_seatless_voter', 'two_zero_vote_parties',
                      'house_0', 'house_1', 'house_below_direct', 'many_wasted_votes', 'multistage_3stages',
                      'multistage_3stages_depth2', 'allocator_default', 'apportioner_int',
-                     'cty_tie_in_constituency', 'cty_tie_floor_unreachable']
+                     'cty_tie_in_constituency', 'cty_tie_floor_unreachable', 'lower_ratio_tier_party', 'lower_ratio_sl',
+                     'lower_ratio_lr']
 RULE = ('second-vote dicts over 2-6 parties: tie-forcing small sets, zero-vote parties (also two or more, also all), ints up to '
         '10^30 incl. 2^53+-1 and near ties (v, v+1), Fractions, every value as a Fraction object (12 %), exact ties at the '
         'levelling boundary scaled to 10^18 / 10^30 / thirds / sevenths and between parties with different votes a*K, b*K; '
@@ -87,12 +90,9 @@ NOT_VERIFIED = [
     'depth 2 iterates a set of constituencies, the model uses list order and results are compared as sorted maps',
 ]
 UNPROVED = [
-    'level_cty_floors_cover_direct_seats: the hypothesis `direct seats of the party <= its overall seats` of '
-    'level_cty_final_party_totals follows from the levelling stop condition when every direct seat lies in an evaluated '
-    'constituency (sum of the per-constituency maxima >= sum of the direct seats): not proved, validated by the oracle '
-    '(final_not_proportional / house_size clauses on the by-constituency cases)',
-    'level_final_is_proportional with a Tie in the enlarged house, or with parties without votes (HighestAverages '
-    'version needs positive votes)',
+    'final totals = proportional distribution when nobody / not everybody has votes: the highest-averages theorems need '
+    'positive votes for every party (final_zero_votes_witness shows the clause failing when nobody has votes); with '
+    'ties in the enlarged house both evaluators are proved (level_final_is_proportional_tie, _lr_tie)',
     'termination of the FLAT LevelOverhang when the baseline result contains a Tie key: no diverging input exists in '
     'the exhaustive scopes ({1..7}^<=3, {1..5}^4, houses <= 7, three evaluators) and there is an informal argument '
     '(a tie group of rational quotients recurs with the same members at infinitely many levels q/k, Hare remainders are '
@@ -1158,6 +1158,58 @@ def _directed_intermediate_tie(rng, count):
     return out
 
 
+def _directed_lower_ratio(rng, count):
+    """a party in overhang next to a SECOND tier party that has fewer votes per seat of its minimum, yet reaches its
+    minimum earlier (or has it already): the house size is decided by the party in overhang, not by the party with the
+    lowest votes-per-minimum-seat ratio.  Possible under Sainte-Lague (quotient v/(2m-1)) and Hare-LR, impossible under
+    D'Hondt (quotient v/m: a party holding m seats has at least the ratio of every party still short of its minimum) -
+    D'Hondt inputs of the same shape are generated too, untagged."""
+    out = []
+    tries = 0
+    per_ev = {}
+    while len(out) < count and tries < 150 * count:
+        tries += 1
+        ev = ALL_EVALS[tries % len(ALL_EVALS)]
+        m = rng.randint(3, 5)
+        vs = [rng.randint(2500, 6000)] + [rng.randint(400, 3000) for _ in range(m - 2)] + [rng.randint(150, 900)]
+        n = rng.randint(4, 14)
+        try:
+            base = _bb(ev, {NAMES.n(i): v for i, v in enumerate(vs)}, n)
+        except _Refused:
+            continue
+        if any(isinstance(k, tuple) for k in base) or 0 not in base:
+            continue
+        d = [0] * m
+        d[0] = base[0] + rng.randint(1, 3)
+        if d[0] > n:
+            continue
+        floors = {p: max(d[p], k) for p, k in base.items()}
+        ratios = {p: Fraction(vs[p], f) for p, f in floors.items() if f > 0}
+        crit = min(ratios, key=lambda p: ratios[p])
+        c = _level_case(rng.choice(['overhang_calc', 'adjusted_eval']), ev, vs, n, d,
+                        wrap=rng.choice(['none', 'multistage']), tags=['directed'])
+        exp = _expected_level(ev, _votes(c), n, {i: k for i, k in c['prev']}, FUEL)
+        if exp['least'] is None:
+            continue
+        # first enlargement at which the lowest-ratio party alone has its minimum
+        e_crit = None
+        for e in range(0, exp['least'] + 1):
+            if _bb(ev, {NAMES.n(i): v for i, v in enumerate(vs)}, n + e).get(crit, 0) >= floors[crit]:
+                e_crit = e
+                break
+        differs = e_crit is not None and e_crit < exp['least']
+        if ev in ('d_hondt', 'd_hondt_mod'):
+            if per_ev.get(ev, 0) < count // 8:
+                per_ev[ev] = per_ev.get(ev, 0) + 1
+                out.append(_finish_flat(rng, c, wrap=c.get('wrap')))
+            continue
+        if not differs:
+            continue
+        c['_tags'] += ['lower_ratio_tier_party', 'lower_ratio_lr' if ev == 'hare_lr' else 'lower_ratio_sl']
+        out.append(_finish_flat(rng, c, wrap=c.get('wrap')))
+    return out
+
+
 def _directed_alabama(rng, count):
     """Hare largest remainder, 4-5 parties, small house: keep the cases in which a tier party loses a seat while the
     house grows towards the levelled size"""
@@ -1469,6 +1521,7 @@ def generate(rng, tier):
             cases.append(c0)
     cases += _directed_intermediate_tie(rng, 30 if tier == 'quick' else 300)
     cases += _directed_alabama(rng, 30 if tier == 'quick' else 300)
+    cases += _directed_lower_ratio(rng, 48 if tier == 'quick' else 400)
     k = 36 if tier == 'quick' else 300
     cases += _directed_scaled_ties(rng, k)
     cases += _directed_cross_ties(rng, 2 * k)
